@@ -256,8 +256,8 @@ def run(ix, R):
             if nm == 'set_num_gauss':
                 lg = one([e for e in fl.of('call') if e.name == 'leggauss'], 'leggauss call')
                 call = fl.tab.atom('call', tuple(lg.args), extra=('fn:leggauss',))
-                x = fl.tab.atom('item', (call, fl.tab.const(0)))
-                w = fl.tab.atom('item', (call, fl.tab.const(1)))
+                x = fl.tab.atom('idx', (call, fl.tab.const(0)))
+                w = fl.tab.atom('idx', (call, fl.tab.const(1)))
                 nq = lg.args[0] if lg.args else None
                 okn = nq is not None and fl.tab.equal(nq, code(fl, 'self._ngauss'))
                 ng = st.get('self._ngauss')
@@ -283,10 +283,10 @@ def run(ix, R):
         fl = mkflow(ix, site)
         ee = one(calls(fl, 'evaluate_emission'), 'evaluate_emission call')
         ecall = fl.tab.atom('call', tuple(ee.args), extra=('fn:self.evaluate_emission',))
-        I = fl.tab.atom('item', (ecall, fl.tab.const(0)))
-        imu = fl.tab.atom('item', (ecall, fl.tab.const(1)))
-        w = fl.tab.atom('item', (ecall, fl.tab.const(2)))
-        tau = fl.tab.atom('item', (ecall, fl.tab.const(3)))
+        I = fl.tab.atom('idx', (ecall, fl.tab.const(0)))
+        imu = fl.tab.atom('idx', (ecall, fl.tab.const(1)))
+        w = fl.tab.atom('idx', (ecall, fl.tab.const(2)))
+        tau = fl.tab.atom('idx', (ecall, fl.tab.const(3)))
         r = one(fl.of('return'), 'return')
         want = spec(fl, '(self.compute_final_flux(2*pi*sum(I*(w/imu), axis=0)), tau)',
                     {'I': I, 'imu': imu, 'w': w, 'tau': tau})
